@@ -13,7 +13,8 @@ run_cmd do
       | .thmInfo _ =>
         let last := match n with | .str _ s => s | _ => ""
         if !n.isInternal && !(last.startsWith "eq_") && !(last.startsWith "match_") && !(last.startsWith "proof_")
-           && (`FgaVerif.Props.PROPID).isPrefixOf n then
+           && (`FgaVerif.Props.PROPID).isPrefixOf n
+           && !(isStructure env n.getPrefix && (getStructureFields env n.getPrefix).contains (Name.mkSimple last)) then
           names := names.push n
       | _ => pure ()
   for n in names.qsort (fun a b => a.toString < b.toString) do
